@@ -574,7 +574,7 @@ func (x *Exec) mapContentKeys(mt types.Type, out map[string]bool, seen map[strin
 
 func (x *Exec) modelErrorf(st *State, c *ssa.CallCommon, args []Val) Val {
 	x.useErr()
-	r := x.freshInt("errorf")
+	r := x.newObj(st, "errorf") // a fresh error value: distinct from every value that existed before
 	st.assume(not(eq(r, "0")))
 	errT := types.Universe.Lookup("error").Type()
 	format := ""
